@@ -353,7 +353,7 @@ def run(ctx):
         for _ in range(2 if ctx.quick else 10):
             order_and_monotone(ctx, kind, viol, st)
     # model list with fewer inputs than objectives / more inputs than objectives
-    from vopy.models import GPyTorchModelListExactModel
+    from vopy.models import GPyTorchModelListExactModel, IndependentExactGPyTorchModel
     for d, m in ((2, 3), (4, 2)):
         mdl = GPyTorchModelListExactModel(d, m, 0.05)
         for k in range(m):
@@ -366,8 +366,40 @@ def run(ctx):
                 viol.append({"signature": "modellist-variances-length", "message": f"model list with {d} inputs / {m} objectives: variances shape {np.shape(var)}, lengthscales shape {np.shape(ls)}", "replay": {"kind": "list", "d": d, "m": m}})
         except Exception as e:
             viol.append({"signature": "modellist-variances-length", "message": f"model list with {d} inputs / {m} objectives: get_lengthscale_and_var raised {type(e).__name__}", "replay": {"kind": "list", "d": d, "m": m}})
+    # reported hyper-parameters: one row / entry per objective, equal to what the kernel holds (distinct values per
+    # objective and per input dimension so that a transposed or re-chunked table cannot pass), unequal d and m included
+    import torch
+    for d, m in ((2, 3), (3, 2), (1, 2), (2, 2), (3, 3)):
+        for kind, cls in (("indep", IndependentExactGPyTorchModel), ("list", GPyTorchModelListExactModel)):
+            mdl = cls(d, m, 0.05)
+            rs = np.random.RandomState(10 * d + m)
+            if kind == "list":
+                for k in range(m):
+                    mdl.add_sample(rs.rand(3, d), rs.randn(3), k)
+            else:
+                mdl.add_sample(rs.rand(3, d), rs.randn(3, m))
+            mdl.update()
+            want_ls = 0.1 * (1 + np.arange(m * d, dtype=float)).reshape(m, d)
+            want_var = 0.5 + 0.25 * np.arange(m, dtype=float)
+            with torch.no_grad():
+                if kind == "list":
+                    for k, g in enumerate(mdl.model.models):
+                        g.covar_module.base_kernel.lengthscale = torch.tensor(want_ls[k]).reshape(1, d)
+                        g.covar_module.outputscale = torch.tensor(want_var[k])
+                else:
+                    mdl.model.covar_module.base_kernel.lengthscale = torch.tensor(want_ls).reshape(m, 1, d)
+                    mdl.model.covar_module.outputscale = torch.tensor(want_var)
+            st["hyper_shape_checks"] += 1
+            try:
+                ls, var = mdl.get_lengthscale_and_var()
+                ls, var = np.asarray(ls, dtype=float), np.asarray(var, dtype=float)
+                ok = var.shape == (m,) and np.allclose(var, want_var, rtol=1e-6) and ls.reshape(-1).shape == (m * d,) and ls.shape[0] == m \
+                    and np.allclose(ls.reshape(m, d), want_ls, rtol=1e-6)
+                if not ok:
+                    viol.append({"signature": "hyperparameters-differ-from-kernel", "message": f"{cls.__name__}(d={d}, m={m}): get_lengthscale_and_var returned lengthscales {ls.tolist()} (shape {ls.shape}) and variances {var.tolist()}; the kernel holds per-objective rows {want_ls.tolist()} and variances {want_var.tolist()}", "replay": {"kind": kind, "d": d, "m": m}})
+            except Exception as e:
+                viol.append({"signature": "hyperparameters-differ-from-kernel", "message": f"{cls.__name__}(d={d}, m={m}): get_lengthscale_and_var raised {type(e).__name__}: {str(e)[:100]}", "replay": {"kind": kind, "d": d, "m": m}})
     # models holding no samples predict their prior, for every noise form (scalar, diagonal and full task-noise matrix)
-    from vopy.models import IndependentExactGPyTorchModel
     for kind, cls in (("indep", IndependentExactGPyTorchModel), ("list", GPyTorchModelListExactModel)):
         for nz in ((0.1,) if kind == "list" else (0.1, np.eye(2) * 0.05, np.eye(2) * 0.05 + 0.01)):
             for hist in (("update",), ("add", "update", "clear", "update")):
